@@ -267,8 +267,13 @@ package core
 
 //@ func (*ManagedThread).SuspendUnsafe
 //@   modifies s.operatorConditionValue
+// C12 ("next blocks until an invocation is available and, if repeated before responding, returns the same invocation"): more than one
+// poll can be parked on the same condition (a second poller; the retry after a client-side timeout, whose first handler is still
+// parked); a release is for all of them: every parked poll is woken and finds the state Running
+//@ event ParkedThreadsAllWoken = call sync.(*Cond).Broadcast
 //@ func (*ManagedThread).Release
 //@   modifies s.operatorConditionValue
+//@   ensures [C12: a-release-wakes-every-parked-poll] delta(ParkedThreadsAllWoken) == 1
 
 // --- legal rows of the table (written from the property; every other (state, call) pair is refused) ---
 
